@@ -30,7 +30,7 @@ func init() {
 			{Name: "mass", Variant: "plain", N: core.Tiered(8*40, 8*8000), Run: c12Case},
 		},
 		RequireTags: func(string) []string {
-			return []string{"InstreamFineSediment:lumped-branch", "InstreamFineSediment:flood", "InstreamFineSediment:deposition", "InstreamFineSediment:remobilisation",
+			return []string{"InstreamFineSediment:lumped-branch", "InstreamFineSediment:flood", "InstreamFineSediment:deposition", "InstreamFineSediment:flood+deposition", "InstreamFineSediment:remobilisation",
 				"InstreamParticulateNutrient:resuspension", "flush-step", "StorageParticulateTrapping:zero-working-volume"}
 		},
 	})
@@ -69,7 +69,24 @@ func c12Case(c *core.Ctx) {
 			dt = get(n)
 		}
 	}
-	if model == "InstreamFineSediment" && get("bankFullFlow") > 0 {
+	if model == "InstreamFineSediment" && c.R.Bool(0.4) {
+		// joint regime: flooding AND channel deposition with room in the channel store
+		set := func(n string, v float64) { ps[paramIndex(desc, n)][0] = v }
+		bf := c.R.Range(0.5, 2)
+		set("bankFullFlow", bf)
+		set("fineSedSettVelocity", 1e-3)
+		set("fineSedSettVelocityFlood", c.R.LogRange(1e-5, 1e-3))
+		set("floodPlainArea", c.R.LogRange(1e4, 1e6))
+		set("linkSlope", c.R.LogRange(1e-4, 1e-3))
+		set("propBankHeightForFineDep", c.R.Range(0.5, 1))
+		for t := 0; t < T; t++ {
+			in[iIn("outflow")][t] = bf * c.R.Range(1.05, 4)
+			in[iIn("upstreamMass")][t] = c.R.LogRange(1, 1e4)
+			in[iIn("reachVolume")][t] = c.R.LogRange(1e3, 1e6)
+		}
+		st0[0], st0[1] = 0, 0
+	}
+	if model == "InstreamFineSediment" && get("bankFullFlow") > 0 && st0[0] != 0 {
 		// channel store within its capacity
 		maxStorage := get("propBankHeightForFineDep") * get("bankHeight") * get("linkWidth") * get("linkLength") * get("sedBulkDensity") * 1e3
 		st0[0] = maxStorage * c.R.Range(0, 1)
@@ -155,6 +172,9 @@ func c12Case(c *core.Ctx) {
 				}
 				if inv(t, "outflow") >= get("bankFullFlow") && ov("loadToFloodplain") > 0 {
 					tag("flood")
+				}
+				if dep > 0 && ov("loadToFloodplain") > 0 {
+					tag("flood+deposition")
 				}
 				if dep > 0 {
 					tag("deposition")
@@ -290,7 +310,7 @@ func c12Case(c *core.Ctx) {
 		c.Trivial()
 	}
 	ts := ""
-	for _, k := range []string{"lumped-branch", "flood", "deposition", "remobilisation", "resuspension", "flush", "decay", "zero-working-volume", "trapping"} {
+	for _, k := range []string{"lumped-branch", "flood", "flood+deposition", "deposition", "remobilisation", "resuspension", "flush", "decay", "zero-working-volume", "trapping"} {
 		if tags[k] {
 			ts += k + ","
 		}
